@@ -271,6 +271,12 @@ class Heuristic:
         return {}
 
 
+def _cycle_end(t, period):
+    """True when t is a whole number of periods, up to round-off either way"""
+    rem = t % period
+    return np.isclose(rem, 0) or np.isclose(rem, period)
+
+
 class CycleResetHeuristic(Heuristic):
     """
     Reset the tube temperatures each cycle to the initial values
@@ -284,7 +290,7 @@ class CycleResetHeuristic(Heuristic):
           tube (receiver.tube):               tube object affected
         """
         resetter = thermal.TemperatureResetter(
-            lambda t: np.isclose(t % receiver.period, 0), tube.T0
+            lambda t: _cycle_end(t, receiver.period), tube.T0
         )
 
         return {"resetters": [resetter]}
@@ -297,7 +303,7 @@ class CycleResetHeuristic(Heuristic):
 
         """
         resetter = thermal.ReceiverResetter(
-            lambda t: np.isclose(t % receiver.period, 0)
+            lambda t: _cycle_end(t, receiver.period)
         )
 
         return {"resetters": [resetter]}
